@@ -92,10 +92,10 @@ def floorplan(draw, max_modules=4, units=None):
         struct = {}
         if draw(_i(0, 3)) != 0:
             for side in SIDES:
-                k = draw(st.sampled_from([0, 0, 0, 1, 1, 2]))
+                k = draw(st.sampled_from([0, 0, 0, 1, 1, 2, 2]))
                 if k:
                     struct[side] = k
-            while sum(struct.values()) > 3:
+            while sum(struct.values()) > 5:
                 struct.pop(sorted(struct)[0])
         d0, _ = draw(_shape(struct, R, S))
         if kind == "soft":
